@@ -262,7 +262,12 @@ class _STIXBase(collections.abc.Mapping):
 
         self._inner = setting_kwargs
 
-        self._check_object_constraints()
+        try:
+            self._check_object_constraints()
+        except RecursionError:
+            raise ValueError(
+                "%s content is nested too deeply" % cls.__name__,
+            ) from None
 
         if allow_custom:
             self.__has_custom = has_custom
